@@ -194,7 +194,9 @@ def checkBidi (f : Fields) (ans : Fields) (panicked : Bool) : Verdict :=
       let sdirs := String.intercalate ";" (ps.map (fun p => dirName (specDirection (slice l p.start p.stop))))
       let v := v.add (getF ans "DIR" == sdirs) "S:C17"
       let v := v.add (getF ans "HR" == (if l.any (· % 2 == 1) then "1" else "0")) "S:C17"
-      let la := String.intercalate ";" (ps.map (fun p => s!"{l.getD p.start 0}:{l.getD (p.stop - 1) 0}"))
+      -- `ParagraphInfo::len()` and `Paragraph::level_at(k)` for every offset k of every paragraph
+      let la := String.intercalate ";" (ps.map (fun p =>
+        s!"{p.stop - p.start}:{String.intercalate "," ((slice l p.start p.stop).map toString)}"))
       let v := v.add (getF ans "LA" == la) "S:C17"
       let v := v.add (getF ans "CONV" != "diff" && getF ans "CONV" != "PANIC") "S:C12"
       { v with stats := v.stats ++ s!" paras={ps.length} maxl={l.foldl max 0}" }
